@@ -24,14 +24,25 @@ pub const SEARCH_ROOTS: &[(&str, &str, usize, usize)] = &[
     ("K+P v k", "8/8/8/4k3/8/4K3/4P3/8 w - - 0 1", 2, 3),
     ("K+R v k", "8/8/8/4k3/8/8/8/R3K3 w - - 0 1", 2, 3),
     ("K+P v k+p", "8/5p2/8/4k3/8/4K3/4P3/8 b - - 0 1", 2, 3),
-    ("rook endgame", "8/5pk1/6p1/R7/5P2/6P1/r4K2/8 w - - 0 40", 1, 2),
+    ("rook endgame", "8/5pk1/6p1/R7/5P2/6P1/r4K2/8 w - - 0 40", 2, 2),
     ("perft position 3 (rook + pawns, en passant)", "8/2p5/3p4/KP5r/1R3p1k/8/4P1P1/8 w - - 0 1", 1, 2),
     ("minor-piece ending with promotion threats", "8/P4k2/8/8/3n4/8/5K1p/2B5 w - - 0 1", 2, 2),
     ("queen ending with mate threats", "6k1/5ppp/8/8/8/8/1q3PPP/3Q2K1 w - - 0 1", 1, 2),
     ("castling both sides available", "r3k2r/pppq1ppp/2n1bn2/3pp3/3PP3/2N1BN2/PPPQ1PPP/R3K2R w KQkq - 0 8", usize::MAX, 0),
     ("single legal reply (back-rank check)", "7k/8/8/8/8/8/6PP/r5K1 w - - 0 1", 2, 3),
     ("single legal reply (queen check, king must step aside)", "r3k3/p1R2Qp1/2pq4/4p3/2P4P/3BP3/P4P1P/5bK1 b q - 0 1", 0, 1),
+    ("K+N v k+r (forks and skewers at the horizon)", "8/5k2/2r5/8/4N3/8/4K3/8 w - - 0 1", 2, 2),
+    ("K+Q+N v k+q", "8/4k3/8/2q5/8/5N2/3QK3/8 w - - 0 1", 1, 2),
+    ("rook ending with pawns on both wings", "8/pp3k2/8/2r5/8/P7/1P3K2/3R4 w - - 0 1", 2, 2),
+    ("K+R v k+r", "4k3/8/4r3/8/8/4R3/8/4K3 w - - 0 1", 2, 2),
+    ("knight ending, two pawns each", "4k1n1/1p4p1/8/8/8/8/1P4P1/1N2K3 w - - 0 1", 2, 2),
+    ("knight ending with fixed pawns", "8/3k1p2/3n4/1p6/1P3P2/3N4/5K2/8 w - - 0 1", 2, 2),
 ];
+
+/// Small positions get single fixed-depth searches to depth 4 in the quick tier as well.
+fn is_small(name: &str, fen: &str) -> bool {
+    name.starts_with("K+") || fen.split(' ').next().unwrap().chars().filter(|c| c.is_ascii_alphabetic()).count() <= 8
+}
 
 struct Collect<'a> {
     nav: PosCheck<'a>,
@@ -148,7 +159,7 @@ pub fn run(tier: &str, seed: u64, out: &str) {
             }
         }
         // single fixed-depth searches to depth 4 (and 5 for the small endings), instrumented
-        let small = name.starts_with("K+");
+        let small = is_small(name, fen);
         if thorough || small {
             let deep_roots: Vec<Board> = states.iter().cloned().take(if thorough { 400 } else { 40 }).collect();
             for b in &deep_roots {
@@ -194,6 +205,66 @@ pub fn run(tier: &str, seed: u64, out: &str) {
         tot.searched += o.searched;
         tot.skipped_excluded += o.skipped_excluded;
         tot.skipped_deeper_reuse += o.skipped_deeper_reuse;
+        tot.won += o.won;
+        tot.lost += o.lost;
+        tot.exact += o.exact;
+    }
+
+    // ---- tactical roots (the repository's mate puzzles and a few more): mates, captures next to
+    // mates, checks at the horizon. Middlegames cost a lot per reference value, so: the root and
+    // its colour mirror to depth 1..2 (thorough 1..3), every state one ply away to depth 1 (thorough 1..2).
+    if !rep.saturated() && rep.elapsed() <= wall_cap {
+        let mut jobs: Vec<(Board, u8, bool)> = Vec::new();
+        let mut n_roots = 0u64;
+        for fen in crate::props::c08::TACTICAL_ROOTS {
+            let p = Pos::from_fen(fen).unwrap();
+            for q in [p.clone(), p.mirror()] {
+                let states = neighbourhood(&mg, &rep, &q.fen(0, 1), 1);
+                let small = is_small("", fen);
+                for (i, b) in states.iter().enumerate() {
+                    let maxd: u8 = if i == 0 {
+                        if thorough || small { 3 } else { 2 }
+                    } else if thorough {
+                        2
+                    } else {
+                        1
+                    };
+                    for k in 1..=maxd {
+                        jobs.push((*b, k, false));
+                    }
+                }
+                n_roots += 1;
+            }
+        }
+        let results: Vec<(bool, Option<Class>, u64)> = par_map(&jobs, |(b, k, fixed)| check_one(&cache, &mg, &rep, b, *k, *fixed));
+        let mut o = Outcome { searched: 0, skipped_excluded: 0, skipped_deeper_reuse: 0, won: 0, lost: 0, exact: 0 };
+        for (ok, class, deeper) in &results {
+            o.searched += 1;
+            if *deeper > 0 {
+                o.skipped_deeper_reuse += 1;
+            } else if *ok && class.is_none() {
+                o.skipped_excluded += 1;
+            }
+            match class {
+                Some(Class::Won) => o.won += 1,
+                Some(Class::Lost) => o.lost += 1,
+                Some(Class::Exact(_)) => o.exact += 1,
+                None => {}
+            }
+        }
+        eprintln!("[C05] tactical roots: {} roots, {} searches, exact {} won {} lost {} skipped(q cap) {} ({:.1}s)", n_roots, o.searched, o.exact, o.won, o.lost, o.skipped_excluded, rep.elapsed());
+        per_root.push(
+            J::obj()
+                .set("name", "tactical roots (with colour mirrors) and every state one ply away")
+                .set("roots", n_roots)
+                .set("searches", o.searched)
+                .set("compared_exact", o.exact)
+                .set("compared_won", o.won)
+                .set("compared_lost", o.lost)
+                .set("skipped_quiescence_cap", o.skipped_excluded),
+        );
+        tot.searched += o.searched;
+        tot.skipped_excluded += o.skipped_excluded;
         tot.won += o.won;
         tot.lost += o.lost;
         tot.exact += o.exact;
